@@ -231,6 +231,7 @@ class Interp:
         self.unknown_calls = defaultdict(int)
         self.dedup = dedup
         self.seen = set()
+        self.contracts = {}           # short name of an opaque local function -> fn(call): adds its contract facts
         self.summarize = set()        # shorts of local functions replaced by their E1 store summary
         self.visited_blocks = set()   # (body id, bb) of executed terminators (coverage)
         self.assumed_sites = set()    # Assert sites whose condition was unknown and assumed to hold
@@ -444,7 +445,7 @@ class Interp:
                 return False
         if t[0] == "addovf":
             # a + b cannot overflow when both are bounded by slice lengths / small constants
-            big = ("int", (1 << 62))
+            big = ("int", (1 << 63) - 1)
             if self.decide_le(st, t[1], big) and self.decide_le(st, t[2], big):
                 return False
             return None
@@ -479,6 +480,22 @@ class Interp:
             c = st.facts.get(t)
             if c and c[0] == "iv" and c[1]:
                 out.append((("int", c[1][-1][1]), False))
+            if t[0] in ("len", "len@"):
+                out.append((("int", (1 << 63) - 1), False))      # slice lengths never exceed isize::MAX
+            if t[0] == "arith" and t[1] == "Add" and depth < 3:
+                # x + d <= L  when  d <= L - x  (the length of the window s[x..] of a slice of length L)
+                x, d = t[2], t[3]
+                seen_d = {d}
+                frontier = [d]
+                while frontier and len(seen_d) < 24:
+                    cur = frontier.pop()
+                    for m, _s in self.upper_edges(st, cur, depth + 1):
+                        if m not in seen_d:
+                            seen_d.add(m)
+                            frontier.append(m)
+                for m in seen_d:
+                    if m[0] == "term" and m[1][0] == "arith" and m[1][1] == "Sub" and m[1][3] == x:
+                        out.append((m[1][2], False))
             if t[0] == "min":
                 out.append((t[1], False))
                 out.append((t[2], False))
@@ -492,9 +509,23 @@ class Interp:
                 rng = TYPE_RANGE.get(t[2])
                 if rng and self.decide_le(st, ("term", t[1]), ("int", rng[1]), False, depth + 1):
                     out.append((("term", t[1]), False))
+        if n[0] == "int":
+            for k, c in st.facts.items():
+                if c[0] == "bool" and k[0] in ("lt", "eq"):
+                    for x in (k[1], k[2]):
+                        if x[0] == "term" and x[1][0] == "arith" and x[1][1] == "Add" and x[1][3] == n:
+                            lo = self.lower_const(st, x[1][2])
+                            if lo is not None and lo >= 0:
+                                out.append((x, False))
         for k, c in st.facts.items():
             if c[0] != "bool":
                 continue
+            if k[0] in ("lt", "eq"):
+                # n <= n + c for a non-negative constant c (sums that occur in recorded comparisons)
+                for x in (k[1], k[2]):
+                    if x[0] == "term" and x[1][0] == "arith" and x[1][1] == "Add" and x[1][2] == n \
+                            and x[1][3][0] == "int" and x[1][3][1] >= 0 and x != n:
+                        out.append((x, x[1][3][1] > 0))
             if k[0] == "lt":
                 if c[1] and k[1] == n:
                     out.append((k[2], True))       # n < k2
@@ -636,8 +667,9 @@ class Interp:
         fr.si = 0
         if n > self.loop_bound + 4:
             return [Outcome("cut", st, info="loop bound at %s bb%d" % (fr.body.short, bb))]
-        if n >= self.loop_bound:
-            # widening: anything that changed since the previous visit becomes unknown
+        is_head = bb in fr.body.loop_heads()
+        if n >= self.loop_bound and is_head:
+            # widening (at loop heads): anything that changed since the previous visit becomes unknown
             prev = st.loopmem.get(key)
             if prev is not None:
                 for root, d in st.mem.items():
@@ -646,9 +678,9 @@ class Interp:
                         continue
                     for p, l in list(d.items()):
                         if p in pd and pd[p] != l and l[0] in ("int", "term"):
-                            d[p] = TOP
+                            d[p] = self.widen_leaf(st, key, root, p, pd[p], l)
             st.loopmem[key] = {r: dict(d) for r, d in st.mem.items()}
-        elif n >= 2:
+        elif n >= 2 and is_head:
             st.loopmem[key] = {r: dict(d) for r, d in st.mem.items()}
         if self.dedup and n >= 2 and bb in fr.body.loop_heads():
             self.gc_facts(st)
@@ -721,6 +753,56 @@ class Interp:
         facts = tuple(sorted(st.facts.items(), key=repr))
         pos = tuple((f.body.id, f.bb, f.si) for f in st.frames)
         return hash((mem, facts, pos))
+
+    def mentions(self, t, atom):
+        if t == atom:
+            return True
+        if isinstance(t, tuple):
+            return any(self.mentions(x, atom) for x in t if isinstance(x, tuple))
+        return False
+
+    def recycled_atom(self, st, atom):
+        """beyond the loop bound a call site reuses ONE atom for its result: everything known about the
+        previous incarnation is forgotten and values still mentioning it become unknown"""
+        for k in [k for k in st.facts if self.mentions(k, atom)]:
+            del st.facts[k]
+        for root, d in st.mem.items():
+            for p, l in d.items():
+                if l[0] == "term" and self.mentions(l[1], atom):
+                    d[p] = TOP
+        return ("term", atom)
+
+    def widen_leaf(self, st, key, root, p, old, new):
+        """widening with thresholds: the changed value becomes a fresh atom W (one per loop head and
+        location); upper bounds (slice lengths) that hold for both the old and the new value are kept"""
+        if old[0] not in ("int", "term"):
+            return TOP
+        w = ("widen", hash(key) & 0xffffffff, repr(root)[-40:], p)
+        wl = ("term", w)
+        if old == wl:
+            old_bounds = [k[1] for k, c in st.facts.items() if c == ("bool", False) and k[0] == "lt" and k[2] == wl]
+        else:
+            old_bounds = None
+        cands = set()
+        for k in st.facts:
+            if k[0] in ("lt", "eq"):
+                for x in (k[1], k[2]):
+                    if x[0] == "term" and x[1][0] in ("len", "len@"):
+                        cands.add(x)
+        keep = []
+        for c in cands:
+            ok_old = (c in old_bounds) if old_bounds is not None else self.decide_le(st, old, c)
+            if ok_old and self.decide_le(st, new, c):
+                keep.append(c)
+        lo_old, lo_new = self.lower_const(st, old), self.lower_const(st, new)
+        # forget everything known about the previous incarnation of W
+        for k in [k for k in st.facts if wl in (k[1:3] if k[0] in ("lt", "eq") else ()) or k == w]:
+            del st.facts[k]
+        for c in keep:
+            st.facts[("lt", c, wl)] = ("bool", False)
+        if lo_old is not None and lo_new is not None and min(lo_old, lo_new) >= 0:
+            st.facts[w] = ("iv", ((0, (1 << 63) - 1),))
+        return wl
 
     # ---- statements
     def exec_stmt(self, st, fr, s):
@@ -977,6 +1059,10 @@ class Interp:
             except Exception:
                 return TOP
             return TOP
+        if op in ("Add", "Sub") and b == ("int", 0):
+            return a
+        if op == "Add" and a == ("int", 0):
+            return b
         if a[0] in ("int", "term") and b[0] in ("int", "term"):
             if op in ("BitAnd", "BitOr") and ty == "bool":
                 return ("term", (op.lower(), a, b))
@@ -1149,7 +1235,11 @@ class Interp:
         if rid and rid in self.prog.bodies and (ce.get("is_item", True)):
             body = self.prog.bodies[rid]
             if body.short in self.opaque:
-                return call.ret_app(path)
+                r = call.ret_app(path)
+                contract = self.contracts.get(body.short)
+                if contract is not None:
+                    contract(call)
+                return r
             if body.short in self.summarize:
                 return self.apply_summary(call, body)
             return self.enter(st, fr, body, args, dest, t["target"])
@@ -1206,13 +1296,17 @@ class Interp:
                                   else ("variants", frozenset(vs)))
             else:
                 new = ("term", ("hv", pi, body.id, call.fr.body.id, call.fr.bb, nvis)) if nvis < self.loop_bound else TOP
-                st.write_tree(root, p, leaf_tree(new))
-        res = TOP
+                self.havoc_at(st, root, p, new)
         if nvis < self.loop_bound:
             res = ("term", ("call", call.path, call.fr.body.id, call.fr.bb, nvis))
+        else:
+            res = self.recycled_atom(st, ("call", call.path, call.fr.body.id, call.fr.bb, "*"))
         if short(call.term["dest"]["ty"]) in ("()", "!"):
             res = UNIT
         st.write_tree(call.dest[0], call.dest[1], leaf_tree(res))
+        contract = self.contracts.get(body.short)
+        if contract is not None:
+            contract(call)
         return self.goto(st, call.fr, call.term["target"])
 
     def find_axiom(self, path):
@@ -1274,7 +1368,18 @@ class Interp:
                 new = TOP
                 if site is not None and site[-1] < self.loop_bound:
                     new = ("term", ("hv", i) + site)   # a new, unknown value (distinct from the old one)
-                st.write_tree(l[1], l[2], leaf_tree(new))
+                self.havoc_at(st, l[1], l[2], new)
+
+    def havoc_at(self, st, root, path, new):
+        """contents become unknown; the length of a slice object does not change"""
+        keep = {}
+        d = st.mem.get(root, {})
+        for ps in ((("$len",),), (("$base",),)):
+            if path + ps in d:
+                keep[ps] = d[path + ps]
+        st.write_tree(root, path, leaf_tree(new))
+        for ps, l in keep.items():
+            st.write_leaf(root, path + ps, l)
 
     def default_foreign(self, call):
         st = call.st
@@ -1285,9 +1390,8 @@ class Interp:
         # uninterpreted result, keyed by call site and abstract arguments (keeps the origin visible)
         nvis = st.visits.get(key, 0)
         if nvis >= self.loop_bound:
-            # beyond the loop bound results are plain unknowns (no atom, no recorded facts):
-            # keeps the domain finite so that loops reach a fixpoint
-            res = TOP
+            # beyond the loop bound the site reuses one atom (finite domain, loops reach a fixpoint)
+            res = self.recycled_atom(st, ("call", path, call.fr.body.id, call.fr.bb, "*"))
         else:
             res = ("term", ("call", path, call.fr.body.id, call.fr.bb, nvis)
                    + tuple(call.arg_key(a) for a in call.args))
